@@ -35,7 +35,7 @@ for s in sorted(os.listdir('/verif/seeded')):
     r = R.get(s, {})
     note = extra.get(s, '')
     oc = r.get('outcome', 'not run')
-    if note.startswith('neutral'):
+    if note.startswith('neutral') or note.startswith('no longer applies'):
         oc = 'n/a'
         tot['neutral'] += 1
     elif oc == 'caught':
@@ -65,7 +65,7 @@ for s_ in sorted(os.listdir('/verif/seeded')):
     m = re.match(r'C\d\d-(?:r(\d)m|m|x)', s_)
     rd = 'own regression seeds (x)' if '-x' in s_ else ('round ' + (m.group(1) or '1') if m else '?')
     oc = R.get(s_, {}).get('outcome', 'not run')
-    if extra.get(s_, '').startswith('neutral'):
+    if extra.get(s_, '').startswith('neutral') or extra.get(s_, '').startswith('no longer applies'):
         oc = 'n/a'
     rounds.setdefault(rd, {}).setdefault(oc, 0)
     rounds[rd][oc] += 1
